@@ -58,6 +58,26 @@ func init() {
 	}
 }
 
+// MaxPermRules is the largest rule count whose orders are enumerated; larger knowledge bases
+// run in sorted order only (NAlt = 1).
+const MaxPermRules = 5
+
+// NPerms returns the number of enumerable orders of k rules.
+func NPerms(k int) int {
+	if k > MaxPermRules {
+		return 1
+	}
+	return len(Perms(k))
+}
+
+// permOf returns permutation ch of k elements (nil = identity).
+func permOf(k, ch int) []int {
+	if ch == 0 || k > MaxPermRules {
+		return nil
+	}
+	return Perms(k)[ch]
+}
+
 // ---------- data context bridging ----------
 
 // NewDataContext creates an engine data context over the world's own objects.
@@ -443,30 +463,35 @@ func RunOn(prog *Program, kb *ast.KnowledgeBase, w *ref.World, opts RunOpts, tr 
 	hook := 0
 	setChooser(kb.RuleEntries, func(keys []string) []int {
 		k := len(keys)
-		ps := Perms(k)
+		np := NPerms(k)
 		ch := opts.DefaultChoice
-		if ch >= len(ps) {
-			ch = len(ps) - 1
+		if ch >= np {
+			ch = np - 1
 		}
 		if hook < len(opts.Choices) {
 			ch = opts.Choices[hook]
-			if ch < 0 || ch >= len(ps) {
-				panic(fmt.Sprintf("hx: order choice %d out of range (%d permutations) while replaying a prefix", ch, len(ps)))
+			if ch < 0 || ch >= np {
+				panic(fmt.Sprintf("hx: order choice %d out of range (%d permutations) while replaying a prefix", ch, np))
 			}
 		}
 		hook++
 		tr.Choices = append(tr.Choices, ch)
-		tr.NAlts = append(tr.NAlts, len(ps))
+		tr.NAlts = append(tr.NAlts, np)
+		perm := permOf(k, ch)
 		if m.cur != nil && m.cur.Order == nil {
 			m.cur.Choice = ch
-			m.cur.NAlt = len(ps)
+			m.cur.NAlt = np
 			ord := make([]string, k)
-			for i, p := range ps[ch] {
-				ord[i] = keys[p]
+			for i := range ord {
+				if perm == nil {
+					ord[i] = keys[i]
+				} else {
+					ord[i] = keys[perm[i]]
+				}
 			}
 			m.cur.Order = ord
 		}
-		return ps[ch]
+		return perm
 	})
 	defer setChooser(kb.RuleEntries, nil)
 	func() {
@@ -605,13 +630,12 @@ func RunPlain(b *Built, w *ref.World, opts RunOpts) (err error, final string, pa
 	eng := &engine.GruleEngine{MaxCycle: opts.MaxCycle, ReturnErrOnFailedRuleEvaluation: opts.ReturnErr}
 	hook := 0
 	setChooser(kb.RuleEntries, func(keys []string) []int {
-		ps := Perms(len(keys))
 		ch := 0
 		if hook < len(opts.Choices) {
 			ch = opts.Choices[hook]
 		}
 		hook++
-		return ps[ch]
+		return permOf(len(keys), ch)
 	})
 	defer setChooser(kb.RuleEntries, nil)
 	func() {
@@ -645,13 +669,12 @@ func Fetch(kb *ast.KnowledgeBase, w *ref.World, returnErr bool, choice int) *Fet
 	}
 	eng := &engine.GruleEngine{MaxCycle: 10, ReturnErrOnFailedRuleEvaluation: returnErr}
 	setChooser(kb.RuleEntries, func(keys []string) []int {
-		ps := Perms(len(keys))
-		res.NAlt = len(ps)
-		if choice >= len(ps) {
+		res.NAlt = NPerms(len(keys))
+		if choice >= res.NAlt {
 			panic("hx.Fetch: order choice out of range")
 		}
 		res.Choice = choice
-		return ps[choice]
+		return permOf(len(keys), choice)
 	})
 	defer setChooser(kb.RuleEntries, nil)
 	func() {
